@@ -50,6 +50,19 @@ def _measure(t):
         if not err:
             R = FC.ret_width(mod, ctx.fn(fld['getter']))
             out['dget'] = [(list(w.decisions), B.norm(tuple(B.to_bits(w.ret, R)) + (0,) * (64 - R))) for w in oks]
+    out['dset'] = None
+    if fld.get('setter'):
+        dfn = ctx.fn(fld['setter'])
+        DP = FC.param_width(mod, dfn, 1)
+        ws = bpa.analyse(mod, fld['setter'], lambda: ([Ptr(FC.PDU, 0), bpa.sym_arg('v', DP)], {FC.PDU: Region(FC.PDU, 'sym', N)}),
+                         max_worlds=16, gcache=ctx.gcache)
+        oks, err = FC.ok_worlds(ws)
+        if not err:
+            out['dset'] = []
+            out['dset_width'] = DP
+            for w in oks:
+                r = w.regions[FC.PDU]
+                out['dset'].append((list(w.decisions), {o: r.mem[o] for o in r.writes}))
     return out
 
 
@@ -126,6 +139,10 @@ def run(ctx, tier, res, tag=''):
                                    % (ctx.formats[a['fmt']]['set_field'], ctx.formats[b['fmt']]['set_field'], d))
                     if a['dget'] is not None and b['dget'] is not None and vec_differs(a['dget'], b['dget']):
                         bad.append('the dedicated getters disagree')
+                    if a['dset'] is not None and b['dset'] is not None and a.get('dset_width') == b.get('dset_width'):
+                        d = mem_differs(a['dset'], b['dset'])
+                        if d:
+                            bad.append('the dedicated setters leave different bytes (%s)' % d)
                     if bad:
                         res.violation(key + tag, 'src/avtp (%s vs %s tables): %s: %s' % (a['fmt'], b['fmt'], desc, '; '.join(bad)))
                     else:
@@ -135,12 +152,12 @@ def run(ctx, tier, res, tag=''):
                                         'read_result': B.fmt_vec(a['get'][0][1], 64).replace('0 ', ''),
                                         'octets_written': sorted(a['set'][0][1])})
     res.rule = ('for every family of spec/families.json, every shared field and every pair of views: the measured closed form of '
-                'the by-identifier read, the measured effect of the by-identifier write and the dedicated getters must be identical')
+                'the by-identifier read, the measured effect of the by-identifier write, the dedicated getters and the dedicated setters (same parameter width) must be identical')
     res.extra['exhaustive'] = True
     return res
 
 
 def main(tier, seed):
-    from ..ctx import Ctx
+    from ..ctx import run_all_configs
     res = Result('C17', tier, 'proof', seed)
-    return run(Ctx('le'), tier, res)
+    return run_all_configs(run, tier, res)
